@@ -558,10 +558,10 @@ def run(ctx):
             gen_orders(ctx.rng, not quick),
             gen_loss(ctx.rng, not quick, 80),
             gen_race(ctx.rng, not quick, 100),
-            gen_close(ctx.rng, not quick, 220 if quick else 1500),
+            gen_close(ctx.rng, not quick, 220 if quick else 1200),
             gen_after_gone(ctx.rng, 130 if quick else 900),
             gen_odd_frames(ctx.rng, 130 if quick else 900),
-            gen_random(ctx.rng, 260 if quick else 2000, 18 if quick else 30),
+            gen_random(ctx.rng, 260 if quick else 1500, 18 if quick else 30),
         ]
         for g in gens:
             for case in g:
